@@ -45,4 +45,11 @@ def canonicalize(j):
                     and t.get('resolved') in names and t['func'].get('fn') != t['resolved']:
                 t['func']['trait_fn'] = t['func'].get('fn')
                 t['func']['fn'] = t['resolved']
+    # `for job in receiver.iter()` / `receiver.into_iter()`: the iterator's next() is the blocking receive of `while let Ok(job) = receiver.recv()`
+    for f in j2['fns']:
+        for b in f['blocks']:
+            t = b.get('term')
+            if t and t['k'] == 'call' and t['func'].get('fn') == 'core::iter::traits::iterator::Iterator::next' \
+                    and str(t.get('self_ty') or '').startswith(('std::sync::mpsc::Iter<', 'std::sync::mpsc::IntoIter<')):
+                t['func']['fn'] = 'std::sync::mpsc::Receiver::recv_iter'
     return j2
